@@ -171,13 +171,26 @@ def check_mean(prog, rep, m):
     if pub is None:
         raise AnalysisIncomplete('focal.mean not found')
     loops = [n for n in pub.own_nodes() if isinstance(n, ast.For)]
-    ok = len(loops) == 1 and norm(loops[0].iter).replace(' ', '') == 'range(passes)' and len(loops[0].body) == 1 and \
-        norm(loops[0].body[0]).replace(' ', '') in ('out=_mean(out,tuple(excludes))', 'out=_mean(out,excludes)')
+    # `for _ in range(passes): acc = _mean(acc, excludes)`: one loop over the public `passes`, whose only statement feeds
+    # the running result back into the mean routine (whatever the local is called)
+    ok = False
+    acc = None
+    if len(loops) == 1 and norm(loops[0].iter).replace(' ', '') == 'range(passes)' and len(loops[0].body) == 1:
+        st = loops[0].body[0]
+        if isinstance(st, ast.Assign) and isinstance(st.targets[0], ast.Name) and isinstance(st.value, ast.Call):
+            t_ = prog.resolve_callable(pub, m, st.value.func)
+            a_ = st.value.args
+            from ..backends import reachable as _reach
+            if isinstance(t_, Func) and (t_ is f or any(g_ is f for g_ in _reach(prog, t_, 3))) and len(a_) == 2 and isinstance(a_[0], ast.Name) and a_[0].id == st.targets[0].id and \
+                    norm(a_[1]).replace(' ', '') in ('excludes', 'tuple(excludes)'):
+                ok, acc = True, st.targets[0].id
     rep.add('F2', pub, entry, 'for i in range(passes): out = _mean(out, excludes)', pub.node.lineno, ok,
             'the 3x3 mean is applied exactly `passes` times, each pass on the previous result')
-    init = [v for v in pub.local_assigns().get('out', []) if isinstance(v, ast.AST) and 'astype' in norm(v)]
-    ok = len(init) == 1 and norm(init[0]).replace(' ', '') in ('agg.data.astype(float)', 'agg.data.astype(np.float64)', 'agg.data.astype(np.float32)')
-    rep.add('F2', pub, entry, 'out = %s' % (norm(init[0]) if init else None), pub.node.lineno, ok,
+    init = [v for v in pub.local_assigns().get(acc, []) if isinstance(v, ast.AST) and 'astype' in norm(v)] if acc else []
+    rp = pub.params[0]
+    ok = len(init) == 1 and norm(init[0]).replace(' ', '') in tuple('%s.%s.astype(%s)' % (rp, d_, t_) for d_ in ('data', 'values')
+                                                                    for t_ in ('float', 'np.float64', 'np.float32'))
+    rep.add('F2', pub, entry, 'running result starts as %s' % (norm(init[0]) if init else None), pub.node.lineno, ok,
             'the passes start from a float copy of the input')
 
 
@@ -383,7 +396,20 @@ def check_stats_table(prog, rep, m):
         rep.add('F4', f, entry, "%r -> %s: %s" % (key, norm(v), body), v.lineno, ok,
                 'statistic %r must be the NaN-ignoring NumPy reducer of the same name over the window (range = max - min)' % key)
     # each statistic applied through apply() with the same kernel and raster
-    ok = any(isinstance(c, ast.Call) and norm(c).replace(' ', '') == 'apply(agg,kernel,func=_function_mapping[stats])' for c in calls(f.node))
+    # apply(<raster>, <kernel>, func=<table>[<the statistic of the enclosing loop over the requested names>])
+    tname = next((n.targets[0].id for n in f.own_nodes() if isinstance(n, ast.Assign) and n.value is table and isinstance(n.targets[0], ast.Name)), None)
+    ok = False
+    apf = m.funcs.get('apply')
+    for lp_ in [n for n in f.own_nodes() if isinstance(n, ast.For) and isinstance(n.target, ast.Name)]:
+        for c in calls(lp_):
+            if prog.resolve_callable(f, m, c.func) is apf and apf is not None:
+                b_ = dict(zip(apf.params, c.args))
+                b_.update({k_.arg: k_.value for k_ in c.keywords if k_.arg})
+                fa = b_.get('func')
+                if len(f.params) >= 2 and norm(b_.get(apf.params[0])) == f.params[0] and norm(b_.get(apf.params[1])) == f.params[1] and \
+                        isinstance(fa, ast.Subscript) and isinstance(fa.value, ast.Name) and fa.value.id == tname and \
+                        norm(fa.slice) == lp_.target.id and isinstance(lp_.iter, ast.Name) and lp_.iter.id in f.params:
+                    ok = True
     rep.add('F4', f, entry, 'apply(agg, kernel, func=_function_mapping[stats])', f.node.lineno, ok,
             'each requested statistic is focal apply with the table\'s reducer')
     cc = [c for c in calls(f.node) if short(c) == 'concat']
@@ -448,9 +474,28 @@ def check_hotspots(prog, rep, m):
         g = m.funcs.get(fn)
         if g is None:
             raise AnalysisIncomplete('%s not found' % fn)
-        t = {norm(x.targets[0]): norm(x.value).replace(' ', '') for x in g.own_nodes() if isinstance(x, ast.Assign) and isinstance(x.targets[0], ast.Name)}
-        ok = t.get('mean_array') == 'convolve_2d(data,kernel/kernel.sum())' and t.get('global_mean') == '%s.nanmean(data)' % mod and \
-            t.get('global_std') == '%s.nanstd(data)' % mod and t.get('z_array') == '(mean_array-global_mean)/global_std'
+        # on wrapper terms: what reaches the classifying kernel (directly, or as the array whose blocks are mapped) is
+        # (convolve_2d(d, k / k.sum()) - nanmean(d)) / nanstd(d) with d the raster's data as float32
+        from ..wterm import WT, key as tkey
+        cv = prog.module('convolution').funcs.get('convolve_2d')
+        kf = m.funcs.get('_calc_hotspots_numpy')
+        w = WT(prog, keep=[x_ for x_ in (cv, kf) if x_ is not None])
+        w.noserial = True
+        w.run(g)
+        env_ = {'raster': ('param', g.params[0]), 'kernel': ('param', g.params[1])}
+        want = w.expr('(convolve_2d(raster.data.astype(np.float32), kernel / kernel.sum()) - %s.nanmean(raster.data.astype(np.float32))) / '
+                      '%s.nanstd(raster.data.astype(np.float32))' % (mod, mod), env_, g)
+        zs = [x.args[0] for x in w.calls if x.callee is kf and x.args]
+        zs += [x.callee[1] for x in w.calls if isinstance(x.callee, tuple) and x.callee[0] == 'method' and x.callee[2] in ('map_blocks', 'map_overlap')]
+        zs += [x.args[1] for x in w.calls if str(x.name).endswith(('map_blocks', 'map_overlap')) and len(x.args) > 1 and not isinstance(x.callee, tuple)]
+
+        def strip_serial(t_):
+            if isinstance(t_, tuple):
+                if len(t_) == 5 and t_[0] == 'call' and isinstance(t_[4], int):
+                    t_ = t_[:4]
+                return tuple(strip_serial(x_) for x_ in t_)
+            return t_
+        ok = any(tkey(strip_serial(z_)) == tkey(strip_serial(want)) for z_ in zs) if zs else None
         rep.add('F5', g, entry, '%s: z = (convolve(data, kernel/sum) - nanmean(data)) / nanstd(data)' % fn, g.node.lineno, ok,
                 'the z-score compares the kernel-weighted neighbourhood mean with the GLOBAL mean and std of the raster')
     # kernel validation
